@@ -49,6 +49,9 @@ pub fn drain_in_child(case: &EnumCase) -> Report {
                 extra_nones_ok = false;
             }
         }
+        // size_hint() on a fresh iterator, before the first next(): collect(), extend() and unzip() ask for it first,
+        // whatever the sizes of the ranges (a hint computed from the product of the sizes must not overflow)
+        let _ = drive::evaluator(&cfg, &ranges, None).into_iter().size_hint();
         // the same drain with the scope given explicitly: the whole line, and from a later position to the terminal
         if product <= 2000 {
             {
@@ -175,6 +178,10 @@ pub fn cases(tier: Tier, seed: u64) -> Vec<(EnumCase, Vec<&'static str>)> {
             v.push((EnumCase::collect(&format!("size-{}-middle", size), textured_flop(&mut rng, size + 3), vec![small.clone(), a.clone(), small.clone()]), both.clone()));
         }
     }
+    // many wide ranges beside one empty range: nothing can be dealt, so the run is empty at once, but every quantity
+    // derived from the product of the range sizes (1326^7 > 2^64) is exercised
+    v.push((EnumCase::collect("wide-7p-empty-last", flop("2h2d2c"), { let mut r = vec![all.clone(); 7]; r.push(vec![]); r }), both.clone()));
+    v.push((EnumCase::collect("wide-6p-empty-first", flop("AsKd2h"), { let mut r = vec![vec![]]; r.extend(vec![all.clone(); 6]); r }), both.clone()));
     // no players at all
     v.push((EnumCase::collect("no-players", flop("AsKd2h"), vec![]), both.clone()));
     // all ranges empty
@@ -245,7 +252,7 @@ fn timeout_for(case: &EnumCase, profile: &str) -> Duration {
     let product: f64 = case.ranges.iter().map(|r| r.len().max(1) as f64).product::<f64>().max(1.0);
     let deals = 1176.0 * product.max(300.0);
     let per_deal = if profile == "debug" { 20e-6 } else { 1.5e-6 };
-    Duration::from_secs_f64(60.0 + 20.0 * deals * per_deal)
+    Duration::from_secs_f64((60.0 + 20.0 * deals * per_deal).min(7200.0))
 }
 
 /// Parent side: run one case under one profile in a child and classify the outcome.
